@@ -271,8 +271,14 @@ fn dense_maps(shared: &SharedReport) {
                     // rewrite: value of key k moves to key plan(k) (values are ids too)
                     for q in orders(&keys) {
                         let plan = RewritePlan::<Id, _>::from_values_to_sort(&q);
-                        let mi: DenseNatMap<Id, Id> = (0..n).map(|k| (Id::from(k), Id::from((k + 1) % n.max(1)))).collect();
-                        let got = mi.rewrite(&plan);
+                        let mi: DenseNatMap<Id, Id> = DenseNatMap::from((0..n).map(|k| Id::from((k + 1) % n.max(1))).collect::<Vec<Id>>());
+                        let got = match catch_unwind(AssertUnwindSafe(|| mi.rewrite(&plan))) {
+                            Ok(g) => g,
+                            Err(_) => {
+                                r.violation("c20:densemap-rewrite-panics", format!("rewriting a map of {n} entries under the plan of {:?} panicked", q), json!({"engine": "c20dm", "plan": q}));
+                                continue;
+                            }
+                        };
                         r.evaluations += 1;
                         for k in 0..n {
                             let nk = plan.rewrite(&Id::from(k));
